@@ -982,3 +982,275 @@ Proof.
   injection H as <-. eapply ext_trans; [apply ext_push|]. eapply ext_tset; [exact Et|]. right.
   apply chainrep_open_app; [exact HI|]. apply Nat.eqb_neq. exact Ep.
 Qed.
+
+(* ------------------------------------------------------------------ runs of the complete parse *)
+Inductive runs : pstate -> pstate -> Prop :=
+| runs_refl s : runs s s
+| runs_step s s1 s2 : step s = Next s1 -> runs s1 s2 -> runs s s2.
+
+Lemma Inv_step s s1 : Inv s -> step s = Next s1 -> Inv s1.
+Proof. intros HI H. pose proof (step_post s HI) as P. rewrite H in P. exact (proj1 P). Qed.
+
+Lemma runs_ext s sf F : runs s sf -> step sf = Done F -> Inv s -> ext (ptape s) F.
+Proof.
+  induction 1 as [s|s s1 s2 H1 _ IH]; intros HD HI.
+  - apply done_ext; assumption.
+  - eapply ext_trans; [apply step_ext; eassumption|]. apply IH; [exact HD|]. eapply Inv_step; eauto.
+Qed.
+
+Lemma ploop_ok_runs : forall fuel s F, ploop fuel s = Ok F -> exists sf, runs s sf /\ step sf = Done F.
+Proof.
+  induction fuel as [|f IH]; intros s F H; [discriminate|]. cbn [ploop] in H.
+  destruct (step s) as [s1|t|e|x] eqn:E; try discriminate.
+  - destruct (IH _ _ H) as (sf & R & D). exists sf. split; [eapply runs_step; eauto|exact D].
+  - injection H as <-. exists s. split; [apply runs_refl|exact E].
+Qed.
+
+(* ------------------------------------------------------------------ closed tapes have no open container *)
+Lemma closed_not_open off l k x e : closed off l -> nth_error l k = Some x -> cont_end x = Some e -> off + k < e.
+Proof. intros C Hk He. destruct (closed_fwd _ _ C _ _ _ Hk He) as [A _]. exact A. Qed.
+
+Lemma closed_last_plain off l x : closed off (l ++ [x]) -> cont_end x = None.
+Proof.
+  intros C. destruct (cont_end x) as [e|] eqn:E; [|reflexivity]. exfalso.
+  destruct (closed_fwd _ _ C (length l) x e) as (A & B & _); [apply nth_error_snoc_len|exact E|].
+  rewrite app_length in B. cbn [length] in B. lia.
+Qed.
+
+Lemma is_open_closed0 t i : closed 0 t -> is_open t i = false.
+Proof.
+  intros C. unfold is_open. destruct (nth_error t i) as [x|] eqn:E; [|reflexivity].
+  destruct (cont_end x) as [e|] eqn:Ec; [|reflexivity].
+  apply Nat.leb_gt. pose proof (closed_not_open _ _ _ _ _ C E Ec). lia.
+Qed.
+
+(* in t0 ++ c :: V with t0 closed and V closed, the only open container is c *)
+Lemma is_open_chain1 t0 c V i : closed 0 t0 -> closed (S (length t0)) V -> i <> length t0 ->
+  is_open (t0 ++ c :: V) i = false.
+Proof.
+  intros C0 CV Hi. unfold is_open. rewrite nth_error_mid.
+  destruct (Nat.ltb_spec i (length t0)) as [Hlt|Hge].
+  - apply (is_open_closed0 t0 i C0).
+  - destruct (Nat.eqb_spec i (length t0)) as [->|_]; [congruence|].
+    destruct (nth_error V (i - S (length t0))) as [x|] eqn:E; [|reflexivity].
+    destruct (cont_end x) as [e|] eqn:Ec; [|reflexivity].
+    apply Nat.leb_gt. pose proof (closed_not_open _ _ _ _ _ CV E Ec). lia.
+Qed.
+
+Lemma firstn_eq_nth {A} (F t0 : list A) :
+  length t0 <= length F -> (forall i, i < length t0 -> nth_error F i = nth_error t0 i) -> firstn (length t0) F = t0.
+Proof.
+  revert F. induction t0 as [|a t0 IH]; intros F HL H; [reflexivity|].
+  destruct F as [|b F]; [cbn in HL; lia|]. cbn [length firstn].
+  pose proof (H 0 ltac:(cbn; lia)) as H0. cbn in H0. injection H0 as ->.
+  f_equal. apply IH; [cbn in HL; lia|]. intros i Hi. apply (H (S i)). cbn. lia.
+Qed.
+
+(* ------------------------------------------------------------------ the last token in state Key *)
+Definition hdr_rel (x y : ttok) : Prop := x = y \/ exists h, x = TUnquoted h /\ y = THeader h.
+
+Lemma parse_param_app d p st t s1 :
+  parse_param d p st t false = Next s1 -> exists X, X <> [] /\ ptape s1 = t ++ X.
+Proof.
+  unfold parse_param. intros H. crush_H H; injection H as <-; cbn [ptape]; unfold tpush; rewrite <- ?app_assoc;
+    eexists; (split; [|reflexivity]); discriminate.
+Qed.
+
+Lemma nth_error_snoc_mid {A} (a : list A) y b : nth_error (a ++ y :: b) (length a) = Some y.
+Proof. rewrite nth_error_mid, Nat.ltb_irrefl, Nat.eqb_refl. reflexivity. Qed.
+
+Lemma nth_error_app_l {A} (t X : list A) i : i < length t -> nth_error (t ++ X) i = nth_error t i.
+Proof. apply nth_error_app1. Qed.
+
+Lemma restore_plain0 t : (forall z, nth_error t 0 = Some z -> cont_end z = None) -> restore t 0 = (SKey, false).
+Proof.
+  intros H. unfold restore, tget. destruct (nth_error t 0) as [z|]; [|reflexivity].
+  specialize (H z eq_refl). destruct z; try reflexivity; discriminate.
+Qed.
+
+Lemma key_step_last s s1 t1 x :
+  Inv s -> pst_ s = SKey -> step s = Next s1 -> ptape s = t1 ++ [x] -> cont_end x = None ->
+  (pst_ s1 = SKey /\ ptape s1 = ptape s) \/
+  (length (ptape s) < length (ptape s1) /\
+   exists y, nth_error (ptape s1) (length t1) = Some y /\ cont_end y = None /\ hdr_rel x y).
+Proof.
+  destruct s as [d st m p t]. unfold Inv. cbn [pst_ pparent ptape]. intros HI -> H -> Hx. cbn [inv] in HI.
+  assert (HL : length (t1 ++ [x]) = S (length t1)) by (rewrite app_length; cbn [length]; lia).
+  assert (Hnx : nth_error (t1 ++ [x]) (length t1) = Some x) by apply nth_error_snoc_len.
+  assert (Right0 : forall X d' st' m' p', X <> [] ->
+            (length (t1 ++ [x]) < length (ptape (mkps d' st' m' p' ((t1 ++ [x]) ++ X))) /\
+             exists y, nth_error (ptape (mkps d' st' m' p' ((t1 ++ [x]) ++ X))) (length t1) = Some y /\ cont_end y = None /\ hdr_rel x y)).
+  { intros X d' st' m' p' HX. cbn [ptape]. split.
+    - rewrite (app_length (t1 ++ [x])). destruct X; [congruence|cbn [length]; lia].
+    - exists x. split; [rewrite nth_error_app_l by (rewrite HL; lia); exact Hnx|]. split; [exact Hx|left; reflexivity]. }
+  unfold step in H. cbv zeta in H. cbn [pdata pst_ pmixed pparent ptape] in H.
+  destruct (skip_ws_t d) as [d0|]; [|destruct (Nat.eqb p 0); [discriminate|destruct (Nat.eqb _ 0); [destruct (tset _ _ _)|]; discriminate]].
+  destruct d0 as [|c d1]; [discriminate|].
+  destruct (beq c 125 || beq c 93).
+  { destruct (Nat.eqb p 0 && Nat.eqb (slot (t1 ++ [x]) p) 0) eqn:Ez.
+    - apply andb_prop in Ez. destruct Ez as [Ep Eg]. apply Nat.eqb_eq in Ep, Eg. rewrite Eg in H.
+      rewrite restore_plain0 in H by (intros z Hz; eapply chainrep_head; eauto).
+      injection H as <-. left. split; reflexivity.
+    - destruct (restore _ _) as [st' m'].
+      destruct (tset (tpush (t1 ++ [x]) (TEnd p)) p (TObject (length (t1 ++ [x])) m)) as [t'|] eqn:Et; [|discriminate].
+      injection H as <-. right. cbn [ptape]. destruct (tset_spec _ _ _ _ Et) as [L N].
+      unfold tpush in *. rewrite app_length in L. cbn [length] in L. split; [lia|].
+      exists x. split; [|split; [exact Hx|left; reflexivity]].
+      rewrite N; [rewrite nth_error_app_l by (rewrite HL; lia); exact Hnx|].
+      intros E. subst p. assert (Hp : length t1 <> 0).
+      { eapply chainrep_pnz; [exact HI|]. apply andb_eqb_false. exact Ez. }
+      pose proof (chainrep_parent_open _ _ HI Hp) as Ho. unfold is_open in Ho. rewrite Hnx, Hx in Ho. discriminate. }
+  destruct (beq c 123).
+  { destruct (skip_ws_t d1) as [d2|]; [|discriminate]. rewrite match_b125 in H.
+    assert (G : match tlast (t1 ++ [x]) with
+                | Some (TUnquoted h) => match tset (t1 ++ [x]) (length (t1 ++ [x]) - 1) (THeader h) with
+                                        | Some t' => Next (mkps d2 SOpen m p (tpush t' (TArray 0 false)))
+                                        | None => Crash 3023 end
+                | _ => Fail E_TextErr end = Next s1 ->
+                (length (t1 ++ [x]) < length (ptape s1) /\
+                 exists y, nth_error (ptape s1) (length t1) = Some y /\ cont_end y = None /\ hdr_rel x y)).
+    { rewrite tlast_snoc. destruct x; try discriminate.
+      rewrite HL. cbn [Nat.sub]. rewrite Nat.sub_0_r, tset_last. intros H'. injection H' as <-. cbn [ptape]. unfold tpush.
+      split; [rewrite !app_length; cbn [length]; lia|].
+      exists (THeader s). split; [rewrite <- app_assoc; apply nth_error_snoc_mid|]. split; [reflexivity|right; eauto]. }
+    destruct d2 as [|c2 d3]; [right; apply G; exact H|].
+    destruct (N.eqb c2 125); [injection H as <-; left; split; reflexivity|right; apply G; exact H]. }
+  destruct (beq c 91).
+  { destruct (parse_param (c :: d1) p SKey (t1 ++ [x]) false) as [s2| | |] eqn:Ep; cbn [keep_mixed] in H; try discriminate.
+    injection H as <-. destruct (parse_param_app _ _ _ _ _ Ep) as (X & HX & EX). right.
+    destruct s2 as [d2 st2 m2 p2 tp2]. cbn [ptape pdata pst_ pparent] in *. subst tp2. apply (Right0 X d2 st2 m p2 HX). }
+  destruct (scalar_step (c :: d1) c) as [[tok d']| | | |]; try discriminate.
+  injection H as <-. right. apply (Right0 [tok] d' SKvs m p). discriminate.
+Qed.
+
+Lemma key_last s sf F : runs s sf -> step sf = Done F -> Inv s -> pst_ s = SKey ->
+  forall t1 x, ptape s = t1 ++ [x] -> cont_end x = None ->
+  exists y, nth_error F (length t1) = Some y /\ hdr_rel x y.
+Proof.
+  induction 1 as [s|s s1 s2 H1 R IH]; intros HD HI HK t1 x Et Hx.
+  - pose proof (step_done_eof _ _ HD) as E0.
+    destruct s as [d st m p t]. unfold Inv in HI. cbn [pdata pst_ pparent ptape] in *. subst st t. cbn [inv] in HI.
+    unfold step in HD. cbv zeta in HD. cbn [pdata pst_ pmixed pparent ptape] in HD. rewrite E0 in HD.
+    assert (Hnx : nth_error (t1 ++ [x]) (length t1) = Some x) by apply nth_error_snoc_len.
+    destruct (Nat.eqb p 0) eqn:Ep; [injection HD as <-; exists x; split; [exact Hnx|left; reflexivity]|].
+    destruct (Nat.eqb (slot _ p) 0); [|discriminate].
+    destruct (tset _ p _) as [t'|] eqn:Es; [|discriminate]. injection HD as <-.
+    destruct (tset_spec _ _ _ _ Es) as [L N]. exists x. split; [|left; reflexivity].
+    rewrite N; [unfold tpush; rewrite nth_error_app_l by (rewrite app_length; cbn [length]; lia); exact Hnx|].
+    intros E. subst p. apply Nat.eqb_neq in Ep.
+    pose proof (chainrep_parent_open _ _ HI Ep) as Ho. unfold is_open in Ho. rewrite Hnx, Hx in Ho. discriminate.
+  - destruct (key_step_last s s1 t1 x HI HK H1 Et Hx) as [[HK1 Et1] | (HL & y & Hy & Hcy & Hr)].
+    + apply (IH HD (Inv_step _ _ HI H1) HK1 t1 x); [congruence|exact Hx].
+    + pose proof (runs_ext _ _ _ R HD (Inv_step _ _ HI H1)) as [_ HE].
+      exists y. split; [|exact Hr]. rewrite HE; [exact Hy| |].
+      * rewrite Et, app_length in HL. cbn [length] in HL. lia.
+      * unfold is_open. rewrite Hy, Hcy. reflexivity.
+Qed.
+
+(* ------------------------------------------------------------------ consistency: small facts *)
+Lemma tok_cut_refl x : tok_cut x x.
+Proof. left. reflexivity. Qed.
+
+Lemma tok_cut_hdr x' x y : tok_cut x' x -> hdr_rel x y -> tok_cut x' y.
+Proof.
+  intros [->|(s & s' & -> & Hy & Hp & Hn)] Hr.
+  - destruct Hr as [->|(h & -> & ->)]; [left; reflexivity|].
+    right. exists h, h. split; [reflexivity|]. split; [right; reflexivity|]. split; [exists []; rewrite app_nil_r; reflexivity|].
+    destruct h; [right; reflexivity|left; discriminate].
+  - right. exists s, s'. split; [reflexivity|].
+    destruct Hr as [<-|(h & E1 & ->)].
+    + split; [exact Hy|auto].
+    + destruct Hy as [E|E]; [|subst x; discriminate]. subst x. injection E1 as <-. split; [right; reflexivity|auto].
+Qed.
+
+Lemma nth_skipn {A} (l : list A) : forall n i, nth_error (skipn n l) i = nth_error l (n + i).
+Proof.
+  induction l as [|a l IH]; intros n i.
+  - rewrite skipn_nil. destruct i, n; reflexivity.
+  - destruct n as [|n]; [reflexivity|]. cbn [skipn Nat.add nth_error]. apply IH.
+Qed.
+
+Lemma prefix_cut_refl F : prefix_cut F F.
+Proof.
+  destruct (list_last_cases _ F) as [->|(t0 & x & ->)]; [left; reflexivity|].
+  right. exists t0, x, x. split; [reflexivity|]. split.
+  - rewrite firstn_app, Nat.sub_diag, firstn_all. cbn [firstn]. apply app_nil_r.
+  - split; [apply nth_error_snoc_len|apply tok_cut_refl].
+Qed.
+
+Lemma tok_cut_cont x' x e : tok_cut x' x -> cont_end x = Some e -> x' = x.
+Proof.
+  intros [->|(s & s' & -> & [->| ->] & _)] H; [reflexivity|discriminate|discriminate].
+Qed.
+
+(* ------------------------------------------------------------------ exit analysis *)
+Lemma exit_consistent s sf F t1 x x' m' tr :
+  runs s sf -> step sf = Done F -> Inv s -> pst_ s = SKey -> ptape s = t1 ++ [x] -> tok_cut x' x ->
+  step (mkps [] SKey m' (pparent s) (t1 ++ [x'])) = Done tr -> consistent_tape F tr.
+Proof.
+  intros R HD HI HK Et Hcut Hex.
+  pose proof (runs_ext _ _ _ R HD HI) as [HL HE]. rewrite Et in HL, HE.
+  assert (HLt : length (t1 ++ [x]) = S (length t1)) by (rewrite app_length; cbn [length]; lia).
+  pose proof (key_last _ _ _ R HD HI HK t1 x Et) as KLst.
+  destruct s as [d st m p t]. unfold Inv in HI. cbn [pst_ pparent ptape] in *. subst st t. cbn [inv] in HI.
+  unfold step in Hex. cbv zeta in Hex. cbn [pdata pst_ pmixed pparent ptape] in Hex.
+  change (skip_ws_t []) with (@None bytes) in Hex. cbv iota in Hex.
+  destruct (Nat.eqb p 0) eqn:Ep.
+  - (* top level *)
+    apply Nat.eqb_eq in Ep. subst p. injection Hex as <-.
+    pose proof (chainrep_top _ HI) as C0.
+    destruct (KLst (closed_last_plain _ _ _ C0)) as (y & Hy & Hr).
+    left. right. exists t1, x', y. split; [reflexivity|]. split; [|split; [exact Hy|eapply tok_cut_hdr; eauto]].
+    apply firstn_eq_nth; [lia|]. intros i Hi.
+    rewrite HE; [apply nth_error_app_l; exact Hi|lia|apply is_open_closed0; exact C0].
+  - (* one open container *)
+    apply Nat.eqb_neq in Ep.
+    destruct (Nat.eqb (slot (t1 ++ [x']) p) 0) eqn:Es; [|discriminate]. apply Nat.eqb_eq in Es.
+    destruct (chainrep_inv _ _ HI) as [[-> _]|(ta & p0 & c & V & EV & -> & Ha & Na & Hc & CV)]; [congruence|].
+    assert (Hpos : 0 < length ta) by (destruct ta; [congruence|cbn; lia]).
+    destruct (list_last_cases _ V) as [->|(V0 & x2 & ->)].
+    + (* the container itself is the last token *)
+      apply app_inj_tail in EV. destruct EV as [-> ->].
+      rewrite (tok_cut_cont _ _ _ Hcut Hc) in *.
+      rewrite (slot_mid ta c [] p0 Hc) in Es. subst p0.
+      pose proof (chainrep_top _ Ha) as C0.
+      unfold tpush in Hex. rewrite <- app_assoc in Hex. cbn [app] in Hex. rewrite tset_mid in Hex. injection Hex as <-.
+      destruct (nth_error F (length ta)) as [y|] eqn:Ey; [|apply nth_error_None in Ey; lia].
+      right. exists (length ta), [], y.
+      assert (Hf : firstn (length ta) F = ta).
+      { apply firstn_eq_nth; [lia|]. intros i Hi.
+        rewrite HE; [apply nth_error_app_l; exact Hi|lia|].
+        apply is_open_chain1; [exact C0|apply cl_nil|lia]. }
+      split; [exact Hpos|]. split; [rewrite Hf, HLt; cbn [length app]; replace (length ta + 1 + 0) with (S (length ta)) by lia; reflexivity|].
+      split; [rewrite Hf; reflexivity|]. split; [exact Ey|left; reflexivity].
+    + assert (E1 : t1 = ta ++ c :: V0 /\ x = x2).
+      { change (ta ++ c :: V0 ++ [x2]) with (ta ++ (c :: V0) ++ [x2]) in EV. rewrite app_assoc in EV.
+        apply app_inj_tail in EV. destruct EV as [-> ->]. split; [reflexivity|reflexivity]. }
+      destruct E1 as [-> <-].
+      rewrite <- app_assoc in Es, Hex. cbn [app] in Es, Hex.
+      rewrite (slot_mid ta c (V0 ++ [x']) p0 Hc) in Es. subst p0.
+      pose proof (chainrep_top _ Ha) as C0.
+      unfold tpush in Hex. rewrite <- app_assoc in Hex. cbn [app] in Hex. rewrite tset_mid in Hex. injection Hex as <-.
+      destruct (KLst (closed_last_plain _ _ _ CV)) as (y & Hy & Hr).
+      assert (Hlen1 : length (ta ++ c :: V0) = length ta + 1 + length V0) by (rewrite app_length; cbn [length]; lia).
+      destruct (nth_error F (length ta)) as [yc|] eqn:Ey; [|apply nth_error_None in Ey; lia].
+      assert (Hop : forall i, i <> length ta -> is_open ((ta ++ c :: V0) ++ [x]) i = false).
+      { intros i Hi. rewrite <- app_assoc. cbn [app]. apply is_open_chain1; assumption. }
+      assert (Hf : firstn (length ta) F = ta).
+      { apply firstn_eq_nth; [lia|]. intros i Hi.
+        rewrite HE; [rewrite <- app_assoc; apply nth_error_app_l; exact Hi|lia|apply Hop; lia]. }
+      right. exists (length ta), (V0 ++ [x']), yc.
+      split; [exact Hpos|]. split.
+      { rewrite Hf. rewrite <- app_assoc. cbn [app]. do 2 f_equal.
+        f_equal. rewrite !app_length. cbn [length]. rewrite app_length. cbn [length]. lia. }
+      split; [rewrite Hf; reflexivity|]. split; [exact Ey|].
+      right. exists V0, x', y. split; [reflexivity|]. split; [|split].
+      * apply firstn_eq_nth; [rewrite skipn_length; lia|]. intros j Hj. rewrite nth_skipn.
+        rewrite HE; [|lia|apply Hop; lia].
+        rewrite <- app_assoc. cbn [app]. rewrite nth_error_mid.
+        destruct (Nat.ltb_spec (S (length ta) + j) (length ta)); [lia|].
+        destruct (Nat.eqb_spec (S (length ta) + j) (length ta)); [lia|].
+        replace (S (length ta) + j - S (length ta)) with j by lia. apply nth_error_app_l. exact Hj.
+      * rewrite nth_skipn. rewrite Hlen1 in Hy. replace (S (length ta) + length V0) with (length ta + 1 + length V0) by lia. exact Hy.
+      * eapply tok_cut_hdr; eauto.
+Qed.
